@@ -4,7 +4,9 @@ NAME="$1"; shift
 [ -z "$(git -C /repo status --porcelain -- opfython)" ] || { echo "/repo not clean"; exit 2; }
 git -C /repo apply /verif/seeded/$NAME/patch.diff || exit 2
 for id in "$@"; do
+  cp /verif/evidence/$id.json /tmp/evidence-keep-$id.json 2>/dev/null
   /verif/bin/check $id ${TIER:+--tier $TIER} > /tmp/seed-$NAME-$id.out 2>&1; rc=$?
+  cp /tmp/evidence-keep-$id.json /verif/evidence/$id.json 2>/dev/null   # evidence must come from the unchanged tree
   echo "$NAME $id rc=$rc $(grep -c '^VIOLATION' /tmp/seed-$NAME-$id.out) violation lines; first: $(grep -m1 '^VIOLATION\|MACHINERY' /tmp/seed-$NAME-$id.out | cut -c1-220)"
 done
 git -C /repo checkout -- .
